@@ -1043,30 +1043,31 @@ Proof.
 Qed.
 (** * [addrxlat_fulladdr_conv] *)
 
-Lemma in_caps_single k x : (0 <= k)%Z -> in_caps (N.shiftl 1 (Z.to_N k)) x -> x = k.
+Lemma in_caps_of k x : in_caps (caps_of k) x -> x = k /\ (0 <= k < 64)%Z.
 Proof.
-  intros Hk [[H0 H64] Hb].
-  rewrite N.shiftl_1_l, N.pow2_bits_eqb in Hb. apply N.eqb_eq in Hb.
-  apply (f_equal Z.of_N) in Hb. rewrite !Z2N.id in Hb by lia. congruence.
+  unfold caps_of. destruct ((0 <=? k)%Z && (k <? 64)%Z) eqn:Er.
+  - apply andb_prop in Er. destruct Er as [E0 E1]. apply Z.leb_le in E0. apply Z.ltb_lt in E1.
+    intros [[H0 H64] Hb].
+    rewrite N.shiftl_1_l, N.pow2_bits_eqb in Hb. apply N.eqb_eq in Hb.
+    apply (f_equal Z.of_N) in Hb. rewrite !Z2N.id in Hb by lia. split; [congruence|lia].
+  - intros [_ Hb]. rewrite N.bits_0 in Hb. discriminate.
 Qed.
 
 Theorem fulladdr_conv_spec lim s rcaps mem fuel fa as_ st fa' :
   fulladdr_conv lim (Some s) rcaps mem fmt_first fmt_next fmt_ptesz wfuel fuel fa as_ = Conv st fa' ->
-  (st = ST_OK /\ fa_as fa' = as_ /\ conv s rcaps mem fmt_first fmt_next fmt_ptesz wfuel (N.shiftl 1 (Z.to_N as_)) fa fa')
+  (st = ST_OK /\ fa_as fa' = as_ /\ (0 <= as_ < 64)%Z /\
+   conv s rcaps mem fmt_first fmt_next fmt_ptesz wfuel (caps_of as_) fa fa')
   \/ (st <> ST_OK /\ fa' = fa).
 Proof.
   unfold fulladdr_conv, addrxlat_op.
-  destruct ((0 <=? as_)%Z && (as_ <? 64)%Z) eqn:Er; cbn [negb]; [|discriminate].
-  apply andb_prop in Er. destruct Er as [E0 _]. apply Z.leb_le in E0.
-  destruct (op_core lim (Some s) rcaps mem fmt_first fmt_next fmt_ptesz wfuel fuel [] (N.shiftl 1 (Z.to_N as_)) fa) as [x|st'| |] eqn:E;
-    try discriminate.
-  - intros [= <- <-]. left. split; [reflexivity|]. split.
-    + apply op_core_in_caps in E. now apply in_caps_single in E.
-    + exact (op_core_conv lim s rcaps mem fmt_first fmt_next fmt_ptesz wfuel
-               fuel [] _ fa x E).
+  destruct (op_core lim (Some s) rcaps mem fmt_first fmt_next fmt_ptesz wfuel fuel [] (caps_of as_) fa)
+    as [x|st'| |] eqn:E; try discriminate.
+  - intros [= <- <-]. left. split; [reflexivity|].
+    pose proof E as Hc. apply op_core_in_caps in Hc. apply in_caps_of in Hc.
+    destruct Hc as [Hx Hr]. split; [exact Hx|]. split; [exact Hr|].
+    exact (op_core_conv lim s rcaps mem fmt_first fmt_next fmt_ptesz wfuel fuel [] _ fa x E).
   - intros [= <- <-]. right. split; [|reflexivity]. eapply op_core_err_nonzero; exact E.
 Qed.
-
 
 End AnyFormat.
 
